@@ -287,13 +287,16 @@ func syncGen(r *Rng, tier string, emit func(string)) {
 
 // substituteBody keeps header and signature of a publisher block and replaces its first transaction by another
 // one that spends the same inputs (signed by the same owners) but pays a different address.
-func substituteBody(b coin.SignedBlock) (coin.SignedBlock, bool) {
-	if len(b.Body.Transactions) == 0 {
+func substituteBody(b coin.SignedBlock) (coin.SignedBlock, bool) { return substituteBodyAt(b, 0) }
+
+// substituteBodyAt does the same with the transaction at position pos
+func substituteBodyAt(b coin.SignedBlock, pos int) (coin.SignedBlock, bool) {
+	if pos < 0 || pos >= len(b.Body.Transactions) {
 		return b, false
 	}
 	txns := make(coin.Transactions, len(b.Body.Transactions))
 	copy(txns, b.Body.Transactions)
-	t := txns[0]
+	t := txns[pos]
 	t2 := coin.Transaction{Type: t.Type, In: append([]cipher.SHA256{}, t.In...), Out: append([]coin.TransactionOutput{}, t.Out...)}
 	if len(t2.Out) == 0 || len(t.Sigs) != len(t.In) {
 		return b, false
@@ -325,7 +328,7 @@ func substituteBody(b coin.SignedBlock) (coin.SignedBlock, bool) {
 	if err := t2.UpdateHeader(); err != nil {
 		return b, false
 	}
-	txns[0] = t2
+	txns[pos] = t2
 	b.Body.Transactions = txns
 	return b, true
 }
